@@ -24,7 +24,9 @@ OUTSIDE = ["sort()", "LIST_UPLOADERS_INTERPRETATION", "more than two edit operat
 
 # separator layouts: %0 %1 %2 are the words
 WS_LAYOUTS = ["%0", "%0 %1", "%0  %1 %2", " %0 %1", "%0\n %1", "%0\n\t%1\n %2", "%0\n# c\n %1", "%0 %1\n# c1\n# c2\n  %2", "%0 %1 ", "\n %0\n %1", "%0\t%1 \t%2", "\n# c1\n# c2\n %0\n# c3\n %1"]
-CM_LAYOUTS = ["%0", "%0, %1", "%0,%1,%2", "%0 , %1", "%0,\n %1", "%0\n , %1", "%0,\n# c\n %1,\n %2", "%0, %1,", ", %0, %1", "%0,\n %1\n ,", "\n %0,\n %1", "%0\t, %1", "%0\t\t,\n %1\t,\n\t%2", "\n# c1\n# c2\n %0,\n# c3\n %1"]
+CM_LAYOUTS = ["%0", "%0, %1", "%0,%1,%2", "%0 , %1", "%0,\n %1", "%0\n , %1", "%0,\n# c\n %1,\n %2", "%0, %1,", ", %0, %1", "%0,\n %1\n ,", "\n %0,\n %1", "%0\t, %1", "%0\t\t,\n %1\t,\n\t%2", "\n# c1\n# c2\n %0,\n# c3\n %1",
+              # values of several words / several physical lines / with comment lines inside (round 3)
+              "%0 (= 1),\n %1\n   (>= 1.2),\n %2", "%0,\n %1\n# c\n  d,\n %2", "%0\n# c1\n b (>= 1)\n# c2\n c, %1", "%0 ,\n %1\n c\n ,%2"]
 BOUNDARY = (10, 11, 12, 13, 28, 29, 30, 133, 0x2028, 0x2029)
 
 
@@ -46,7 +48,7 @@ def oracle_split(value_text, comma):
     lines = [l for l in value_text.split("\n") if not l.startswith("#")]
     if comma:
         out = []
-        for part in " ".join(lines).split(","):
+        for part in "\n".join(lines).split(","):
             p = part.strip()
             if p:
                 out.append(p)
@@ -109,13 +111,15 @@ def _run(params, li, w, op, idx, nw, op2, idx2):
     doc = parse_deb822_file(split_lines(text))
     para = next(iter(doc))
     view = para.as_interpreted_dict_view(interp)
-    got = list(view["Items"])
     want = oracle_split(value, comma)
-    require(want == words, "harness oracle self-check", want=want, words=words)
-    require(got == want, "list view values differ from the splitting oracle", text=text, got=got, want=want)
-    with view["Items"] as lst:
-        require(list(lst) == want, "values inside the context manager", got=list(lst))
-    require(doc.dump() == text, "open and close without change modified the document", text=text, got=doc.dump())
+    require(len(want) == n and [x.split()[0] for x in want] == words, "harness oracle self-check", want=want, words=words)
+    if not params.get("fresh"):
+        # (a fresh view -- nothing read before the first edit -- is a separate variant: reading fills caches)
+        got = list(view["Items"])
+        require(got == want, "list view values differ from the splitting oracle", text=text, got=got, want=want)
+        with view["Items"] as lst:
+            require(list(lst) == want, "values inside the context manager", got=list(lst))
+        require(doc.dump() == text, "open and close without change modified the document", text=text, got=doc.dump())
     steps = params.get("steps", 1)
     cur = list(want)
     ops = [(op, idx, nw), (op2, idx2, "zz9")]
@@ -156,7 +160,8 @@ def _run(params, li, w, op, idx, nw, op2, idx2):
             elif o == 3:
                 with view["Items"] as lst:
                     refs = list(lst.iter_value_references())
-                    require([r.value for r in refs] == cur, "value references", got=[r.value for r in refs], want=cur)
+                    if not params.get("fresh"):
+                        require([r.value for r in refs] == cur, "value references", got=[r.value for r in refs], want=cur)
                     refs[ix].value = new
                 cur = cur[:ix] + [new] + cur[ix + 1:]
                 reach(params, "ref-set")
@@ -189,9 +194,18 @@ def partitions(tier, seed):
                 P.append(dict(name="%s/concrete/lay%d-%d/hole%d/one-op" % (nm, lo, hi, hole), harness="h_list_c",
                               params=dict(comma=comma, layouts=[lo, hi], hole=hole, concrete=True, steps=1), budget=80 if q else 900, reach=[],
                               bounds="%s-separated list, layouts %d..%d, all five edit operations and operand indices (concrete words)" % (nm, lo, hi - 1)))
-        P.append(dict(name="%s/concrete/reformat" % nm, harness="h_list_c", params=dict(comma=comma, hole=0, concrete=True, steps=1, reformat=True),
-                      budget=100 if q else 900, reach=[],
-                      bounds="%s-separated list, all layouts, append/remove/replace with reformat_when_finished(): the field re-reads as the edited list, neighbours untouched, no error tokens" % nm))
+        for lo in range(0, len(lays), 6):
+            hi = min(len(lays), lo + 6)
+            P.append(dict(name="%s/concrete/lay%d-%d/reformat" % (nm, lo, hi), harness="h_list_c",
+                          params=dict(comma=comma, layouts=[lo, hi], hole=0, concrete=True, steps=1, reformat=True), budget=100 if q else 900, reach=[],
+                          bounds="%s-separated list, layouts %d..%d, append/remove/replace with reformat_when_finished(): the field re-reads as the edited list, neighbours untouched, no error tokens" % (nm, lo, hi - 1)))
+            P.append(dict(name="%s/concrete/lay%d-%d/fresh-view" % (nm, lo, hi), harness="h_list_c",
+                          params=dict(comma=comma, layouts=[lo, hi], hole=0, concrete=True, steps=1, fresh=True), budget=100 if q else 900, reach=[],
+                          bounds="%s-separated list, layouts %d..%d, every edit operation on a view from which nothing was read before the edit" % (nm, lo, hi - 1)))
+            if not q:
+                P.append(dict(name="%s/concrete/lay%d-%d/fresh-view-two-ops" % (nm, lo, hi), harness="h_list_c",
+                              params=dict(comma=comma, layouts=[lo, hi], hole=0, concrete=True, steps=2, fresh=True), budget=1800, reach=[],
+                              bounds="as fresh-view, every pair of edit operations"))
         for lo in range(0, len(lays), 6 if q else 2):
             hi = min(len(lays), lo + (2 if q else 2))
             P.append(dict(name="%s/concrete/lay%d-%d/two-ops" % (nm, lo, hi), harness="h_list_c",
